@@ -34,6 +34,7 @@ type c17reg struct {
 	maxDelay int // microseconds
 	inflight int
 	maxInfl  int
+	listing  int // 0 semver order, 1 reverse, 2 PRNG order
 }
 
 func (r *c17reg) enter(kind string) {
@@ -88,7 +89,19 @@ func (r *c17reg) ModuleVersions(ctx context.Context, mpath string) ([]string, er
 			vs = append(vs, m.Version())
 		}
 	}
-	semver.Sort(vs) // the interface requires semver order
+	semver.Sort(vs) // the interface asks for semver order
+	// ... but the outcome must not depend on the order a registry lists versions in: some schedules list them
+	// in reverse or in PRNG order
+	switch r.listing {
+	case 1:
+		for i, j := 0, len(vs)-1; i < j; i, j = i+1, j-1 {
+			vs[i], vs[j] = vs[j], vs[i]
+		}
+	case 2:
+		r.mu.Lock()
+		r.lat.Shuffle(len(vs), func(i, j int) { vs[i], vs[j] = vs[j], vs[i] })
+		r.mu.Unlock()
+	}
 	return vs, nil
 }
 
@@ -481,7 +494,60 @@ func c17genUniverse(r *rand.Rand) *c17universe {
 		}
 	}
 	u.main = main
+	// one module in three universes has pre-release versions only (order-preserving renaming of its versions):
+	// the "latest" version is then the highest pre-release, whatever order the registry lists them in
+	if r.IntN(3) == 0 {
+		var paths []string
+		seen := map[string]bool{}
+		for _, m := range u.mods {
+			if !seen[m.path] {
+				seen[m.path] = true
+				paths = append(paths, m.path)
+			}
+		}
+		sort.Strings(paths)
+		if len(paths) > 0 {
+			u.renameVersions(paths[r.IntN(len(paths))])
+		}
+	}
 	return u
+}
+
+// renameVersions makes every version of module p a pre-release, keeping their order.
+func (u *c17universe) renameVersions(p string) {
+	major := ""
+	if i := strings.LastIndex(p, "@"); i >= 0 {
+		major = p[i+1:]
+	}
+	ren := map[string]string{}
+	for i, v := range c17majorVersions(major) {
+		ren[v] = major + strings.TrimPrefix([]string{"v0.1.0-alpha.2", "v0.1.0-alpha.9", "v0.1.0-alpha.10"}[i], "v0")
+	}
+	mods := map[string]*c17mod{}
+	all := []*c17mod{}
+	for _, m := range u.mods {
+		all = append(all, m)
+	}
+	if u.main != nil {
+		all = append(all, u.main)
+	}
+	for _, m := range all {
+		if m.path == p {
+			if nv, ok := ren[m.ver]; ok {
+				m.ver = nv
+			}
+		}
+		if dv, ok := m.deps[p]; ok {
+			if nv, ok := ren[dv]; ok {
+				m.deps[p] = nv
+			}
+		}
+	}
+	for _, m := range u.mods {
+		mods[m.path+" "+m.ver] = m
+	}
+	u.mods = mods
+	u.kind += "+prerelease-only"
 }
 
 func c17depsOf(f *modfile.File) map[string]string {
@@ -609,6 +675,7 @@ func init() {
 				if sched > 0 {
 					reg.maxDelay = []int{0, 50, 300, 1500}[sched]
 				}
+				reg.listing = []int{0, 0, 1, 2}[sched]
 				var pr *rand.Rand
 				if sched > 0 {
 					pr = mon.RNG(c.Seed, "C17", fmt.Sprintf("perm-%d-%d", i, sched))
